@@ -319,7 +319,7 @@ theorem wellKinded_child (CK : ChildKinds) (p c : Node) (a : String) (h : wellKi
       simp only [wellKindedAttr] at hx
       exact wellKindedList_mem CK k a cs c hx hh
 
-private theorem lookup_mem {α β : Type} [BEq α] [LawfulBEq α] : ∀ (l : List (α × β)) (a : α) (b : β), l.lookup a = some b → (a, b) ∈ l
+theorem lookup_mem_of_some {α β : Type} [BEq α] [LawfulBEq α] : ∀ (l : List (α × β)) (a : α) (b : β), l.lookup a = some b → (a, b) ∈ l
   | [], _, _, h => by simp [List.lookup] at h
   | (a', b') :: r, a, b, h => by
     simp only [List.lookup] at h
@@ -330,7 +330,7 @@ private theorem lookup_mem {α β : Type} [BEq α] [LawfulBEq α] : ∀ (l : Lis
       exact List.mem_cons_self
     · have : (a == a') = false := by simpa using e
       simp only [this] at h
-      exact List.mem_cons_of_mem _ (lookup_mem r a b h)
+      exact List.mem_cons_of_mem _ (lookup_mem_of_some r a b h)
 
 theorem mem_effSteps {T : Table} {m k : String} {st : Step} (h : st ∈ effSteps T m k) :
     ∃ steps, T.methods.lookup m = some steps ∧ st ∈ steps ∧ st.applies k = true := by
@@ -357,7 +357,7 @@ theorem covered_reached (T : Table) (CK : ChildKinds) (hT : tableKinded T CK = t
     | none => simp [hl] at hko
     | some ks =>
       simp only [hl] at hko
-      have hrow := lookup_mem CK _ _ hl
+      have hrow := lookup_mem_of_some CK _ _ hl
       unfold tableKinded at hT
       have h1 := List.all_eq_true.1 hT _ hrow
       have h2 := List.all_eq_true.1 h1 st hst
